@@ -289,6 +289,11 @@ def generate(rng: random.Random, *, features=None) -> Workflow:
                       for a in atoms_of(l["lhs"])) for l in w.lines)
         if not has_seq:
             w.lines.append({"rec": 0, "lhs": None, "rhs": t, "suicide": False})
+    if f["future"] == "always" and not any(a["off"] > 0 for l in w.lines for a in atoms_of(l["lhs"])):
+        cyc = [i for i, r in enumerate(w.recs) if r["text"].startswith(("P", "+"))]
+        if cyc and len(w.tasks) >= 2:
+            x, y = rng.sample(w.tasks, 2)
+            w.lines.append({"rec": rng.choice(cyc), "lhs": atom(x, 1, "succeeded"), "rhs": y, "suicide": False})
     if f["sequential"] and (f["sequential"] == "always" or rng.random() < 0.25):
         w.seqtasks.add(rng.choice(w.tasks))
     if f["queues"] and (f["queues"] == "always" or rng.random() < 0.5):
@@ -339,8 +344,11 @@ def make_outcome(w: Workflow, rng: random.Random, mode="complete"):
             if vanish:
                 script = ["vanish"]
         else:
-            if r.random() < 0.15:
+            ghost = False
+            if r.random() < 0.2:
                 submit_ok = False
+                # the submit command reports failure although the job did reach the job runner
+                ghost = r.random() < 0.5
             for o in customs:
                 if r.random() < 0.6:
                     script.append("msg_" + o)
@@ -348,6 +356,8 @@ def make_outcome(w: Workflow, rng: random.Random, mode="complete"):
             if submit_ok and r.random() < 0.2:
                 script = ["vanish"]
         table[key] = {"submit_ok": submit_ok, "script": script}
+        if mode != "complete" and not submit_ok and ghost:
+            table[key]["ghost"] = True
         return table[key]
     outcome.table = table
     return outcome
